@@ -244,7 +244,7 @@ func isScalar(t reflect.Type) bool {
 	return t.Kind() == reflect.String || t.Kind() == reflect.Int || t.Kind() == reflect.Bool
 }
 
-var consts = []string{"1", "2", "0", "10", "9", "9.0", " 9", "1943", "abc", "ABC ", "", "M", "F", "John /Smith/", "john /smith/ ", "I1", "true", "Individual", "-1", "007"}
+var consts = []string{"1", "2", "0", "10", "9", "9.0", " 9", "1943", "abc", "ABC ", "", "M", "F", "John /Smith/", "john /smith/ ", "I1", "true", "Individual", "-1", "007", "1e3", "1000", "1.5E2", "150", "2e-2", "0.02", "9e0", "1e1"}
 
 func (g *gen) constant() *Expr {
 	c := consts[g.rng.Intn(len(consts))]
